@@ -9,6 +9,20 @@ use std::sync::atomic::{AtomicUsize, Ordering};
 use std::sync::Arc;
 use vengine::{guard, Obs};
 
+/// The earlier life of the builder in a history case: it was configured with `vals`, one
+/// operation was run on it (outcome ignored), and only then it was re-configured through the
+/// setters to the case's values.
+pub struct Hist<'a> {
+    pub vals: &'a [f64],
+    /// 0 = `check_ref`, 1 = `check` on a clone (by value where the builder has no `Clone`), 2 = the training entry point on tiny data
+    pub action: u8,
+    /// re-configure a clone taken after the first operation instead of the builder itself
+    pub on_clone: bool,
+    /// the first assignment lies inside the trainable intervals (otherwise action 2 is replaced by `check_ref`)
+    pub trainable: bool,
+    pub expect: Expect,
+}
+
 /// One evaluated case, seen from a builder's `run` function.
 pub struct Ctx<'a> {
     pub id: &'static str,
@@ -20,6 +34,7 @@ pub struct Ctx<'a> {
     /// the only reason for `expect == Out` is a recorded defect: use this verdict signature instead of the general one
     pub narrow: Option<&'static str>,
     pub seed: u64,
+    pub hist: Option<Hist<'a>>,
 }
 
 impl<'a> Ctx<'a> {
@@ -27,12 +42,7 @@ impl<'a> Ctx<'a> {
         self.vals.get(i).copied().unwrap_or(f64::NAN)
     }
     pub fn u(&self, i: usize) -> usize {
-        let x = self.v(i);
-        if x.is_finite() && x >= 0.0 {
-            x as usize
-        } else {
-            0
-        }
+        as_count(self.v(i))
     }
     /// class label `<builder>/<what>` (interned: `Obs::class` wants `&'static str`; the set is finite)
     pub fn cls(&self, what: &str) -> &'static str {
@@ -55,13 +65,103 @@ impl<'a> Ctx<'a> {
     pub fn sig(&self, what: &str) -> String {
         format!("{}:{}", self.id, what)
     }
-    pub fn describe(&self) -> String {
+    fn fmt_vals(&self, vals: &[f64]) -> String {
         self.names
             .iter()
-            .zip(self.vals.iter())
+            .zip(vals.iter())
             .map(|(n, v)| format!("{n}={v:e}"))
             .collect::<Vec<_>>()
             .join(", ")
+    }
+    pub fn describe(&self) -> String {
+        match &self.hist {
+            None => self.fmt_vals(self.vals),
+            Some(h) => format!(
+                "{}; history: configured with [{}], then {}, then {} re-configured through the setters",
+                self.fmt_vals(self.vals),
+                self.fmt_vals(h.vals),
+                match h.action {
+                    0 => "check_ref()",
+                    1 => "check() on a copy",
+                    _ => "the training entry point",
+                },
+                if h.on_clone { "a clone of it" } else { "the same builder" }
+            ),
+        }
+    }
+}
+
+pub fn as_count(x: f64) -> usize {
+    if x.is_finite() && x >= 0.0 {
+        x as usize
+    } else {
+        0
+    }
+}
+
+/// How one builder type is constructed, (re-)configured and copied.
+pub struct Glue<'a, P> {
+    pub cx: &'a Ctx<'a>,
+    /// constructor; takes the assignment for parameters that can only be given at construction
+    pub base: &'a dyn Fn(&[f64]) -> P,
+    /// every setter, applied to an existing builder
+    pub set: &'a dyn Fn(P, &[f64]) -> P,
+    pub clone: Option<&'a dyn Fn(&P) -> P>,
+    /// runs the training entry point on tiny data, outcome ignored (must not let a panic escape)
+    pub touch: &'a dyn Fn(&P),
+    /// recorded defect of a history case: (narrow signature, exact error text the defect produces). When the
+    /// re-configured builder is rejected with exactly this text while a fresh builder is accepted, the narrow
+    /// signature is reported instead of the general verdict signatures; any other deviation fails as usual
+    pub stale: Option<(&'static str, String)>,
+    /// history cases only: how the *earlier* assignment is applied when that differs from `set` (SVM: the first
+    /// life selects the other of the two mutually exclusive C / Nu variants, so that the later setter has to displace it)
+    pub first_set: Option<&'a dyn Fn(P, &[f64]) -> P>,
+}
+
+impl<'a, P: ParamGuard> Glue<'a, P> {
+    /// a builder configured directly with the case's values
+    pub fn fresh(&self) -> P {
+        (self.set)((self.base)(self.cx.vals), self.cx.vals)
+    }
+    /// a fresh builder with the *earlier* assignment of a history case
+    pub fn fresh_first(&self) -> Option<P> {
+        self.cx.hist.as_ref().map(|h| self.first_life(h.vals))
+    }
+    fn first_life(&self, v1: &[f64]) -> P {
+        match self.first_set {
+            Some(fs) => fs((self.base)(v1), v1),
+            None => (self.set)((self.base)(v1), v1),
+        }
+    }
+    /// the builder under test: `fresh()` for plain cases; for history cases the builder that lived through
+    /// the earlier configuration + operation and was then re-configured
+    pub fn make(&self) -> P {
+        let Some(h) = &self.cx.hist else {
+            return self.fresh();
+        };
+        let b1 = self.first_life(h.vals);
+        match (h.action, h.trainable) {
+            (1, _) => {
+                let copy = match self.clone {
+                    Some(cl) => cl(&b1),
+                    None => self.first_life(h.vals),
+                };
+                let _ = guard(|| {
+                    let _ = copy.check();
+                });
+            }
+            (2, true) => (self.touch)(&b1),
+            _ => {
+                let _ = guard(|| {
+                    let _ = b1.check_ref();
+                });
+            }
+        }
+        let b = match (h.on_clone, self.clone) {
+            (true, Some(cl)) => cl(&b1),
+            _ => b1,
+        };
+        (self.set)(b, self.cx.vals)
     }
 }
 
@@ -76,43 +176,83 @@ pub struct Verdict {
 /// Obligations (1) and (2): verdict of `check_ref` against the documented range; `check_ref` is
 /// repeatable and leaves the builder equal to a fresh copy; `check` gives the same verdict, the
 /// same error text, a checked value equal to the one `check_ref` exposes, and that value still
-/// carries the generated numbers (`read`).
+/// carries the generated numbers (`read`). History cases: verdict, error text, builder and
+/// checked value must equal those of a fresh builder configured directly with the same values.
+/// Returns the verdict and the builder under test (after its `check_ref`).
 pub fn guard_core<P>(
     obs: &mut Obs,
-    cx: &Ctx,
-    mk: &dyn Fn() -> P,
+    g: &Glue<P>,
     same_p: Option<&dyn Fn(&P, &P) -> bool>,
     same_c: Option<&dyn Fn(&P::Checked, &P::Checked) -> bool>,
     read: Option<&dyn Fn(&P::Checked) -> Vec<f64>>,
-) -> Option<Verdict>
+) -> Option<(Verdict, P)>
 where
     P: ParamGuard,
     P::Error: Display,
 {
-    let p = mk();
+    let cx = g.cx;
+    let p = g.make();
     let first = obs.call(&cx.sig("check_ref"), || p.check_ref().map(|_| ()).map_err(|e| e.to_string()))?;
     let v = Verdict { ok: first.is_ok(), err: first.clone().err().unwrap_or_default() };
 
+    // history: what does a fresh builder with the same values say?
+    let fresh_verdict = if cx.hist.is_some() {
+        let f = g.fresh();
+        obs.call(&cx.sig("check_ref"), || f.check_ref().map(|_| ()).map_err(|e| e.to_string()))
+    } else {
+        None
+    };
+    let stale_hit = match (&g.stale, &fresh_verdict) {
+        (Some((sig, text)), Some(Ok(()))) if !v.ok && &v.err == text => {
+            obs.fail(
+                cx.sig(sig),
+                format!("re-configured builder is rejected with \"{}\" although a fresh builder with the same values is accepted ({})", v.err, cx.describe()),
+            );
+            true
+        }
+        _ => false,
+    };
+
     // (1) verdict
-    match cx.expect {
-        Expect::In => {
-            obs.ensure(v.ok, &cx.sig("verdict:rejected-in-range"), || {
-                format!("every value is inside its documented range ({}) but check_ref returned Err(\"{}\")", cx.describe(), v.err)
+    if !stale_hit {
+        match cx.expect {
+            Expect::In => {
+                obs.ensure(v.ok, &cx.sig("verdict:rejected-in-range"), || {
+                    format!("every value is inside its documented range ({}) but check_ref returned Err(\"{}\")", cx.describe(), v.err)
+                });
+            }
+            Expect::Out => {
+                if !v.ok {
+                    // fine
+                } else if let Some(n) = cx.narrow {
+                    obs.fail(cx.sig(n), format!("check_ref accepted {}", cx.describe()));
+                } else {
+                    obs.fail(
+                        cx.sig("verdict:accepted-out-of-range"),
+                        format!("a value is outside its documented range ({}) but check_ref returned Ok", cx.describe()),
+                    );
+                }
+            }
+            Expect::Amb => {}
+        }
+    }
+
+    // history: the re-configured builder must be indistinguishable from a fresh one
+    if let (Some(fr), false) = (&fresh_verdict, stale_hit) {
+        obs.ensure(fr.is_ok() == v.ok, &cx.sig("history:verdict-differs-from-fresh-builder"), || {
+            format!("re-configured builder: check_ref = {:?}; fresh builder with the same values: {:?} ({})", first, fr, cx.describe())
+        });
+        if let (Err(a), Err(b)) = (&first, fr) {
+            obs.ensure(a == b, &cx.sig("history:error-differs-from-fresh-builder"), || {
+                format!("re-configured builder fails with \"{a}\", a fresh builder with the same values with \"{b}\" ({})", cx.describe())
             });
         }
-        Expect::Out => {
-            if !v.ok {
-                // fine
-            } else if let Some(n) = cx.narrow {
-                obs.fail(cx.sig(n), format!("check_ref accepted {}", cx.describe()));
-            } else {
-                obs.fail(
-                    cx.sig("verdict:accepted-out-of-range"),
-                    format!("a value is outside its documented range ({}) but check_ref returned Ok", cx.describe()),
-                );
-            }
+        let f = g.fresh();
+        if let (Some(eq), Ok(cp), Ok(cf)) = (same_c, p.check_ref(), f.check_ref()) {
+            obs.ensure(eq(cp, cf), &cx.sig("history:checked-value-differs-from-fresh-builder"), || {
+                format!("checked parameters of the re-configured builder differ from those of a fresh builder ({})", cx.describe())
+            });
         }
-        Expect::Amb => {}
     }
 
     // (2a) check_ref is repeatable and does not change the builder
@@ -122,14 +262,14 @@ where
         });
     }
     if let Some(eq) = same_p {
-        let fresh = mk();
+        let fresh = g.fresh();
         obs.ensure(eq(&p, &fresh), &cx.sig("check_ref:changed-builder"), || {
-            format!("after check_ref the builder differs from a fresh copy ({})", cx.describe())
+            format!("after check_ref the builder differs from a fresh builder with the same values ({})", cx.describe())
         });
     }
 
     // (2b) check() by value
-    let by_value = obs.call(&cx.sig("check"), || mk().check());
+    let by_value = obs.call(&cx.sig("check"), || g.make().check());
     if let Some(r) = by_value {
         match r {
             Ok(checked) => {
@@ -173,7 +313,7 @@ where
     }
     obs.class_if(v.ok, "verdict_ok");
     obs.class_if(!v.ok, "verdict_err");
-    Some(v)
+    Some((v, p))
 }
 
 /// Outcome of one training entry point, reduced to what is compared.
@@ -191,28 +331,33 @@ fn run<T, E: Display>(f: impl FnOnce() -> Result<T, E>) -> Outcome<T> {
     }
 }
 
-/// Obligation (3) for one entry point (`fit`, `fit_with`, `transform`).
+/// Obligation (3) for one entry point (`fit`, `fit_with`, `transform`), `hb` being the builder under test.
 ///
-/// * `v` rejected: the unchecked builder must return `Err` whose text equals `converted` (the
-///   `check_ref` error sent through the entry point's own `From` conversion), must not panic and
-///   must not have touched the probes (`touched` = number of calls the mocks saw).
-/// * `v` accepted and the case is `fit_safe`: the unchecked builder and the checked form must
-///   behave identically (`same` on two `Ok` values, equal text on two `Err`, both panic).
+/// * `v` rejected: `on_p(hb)` must return `Err` whose text equals the `check_ref` error sent
+///   through the entry point's own `From` conversion, must not panic and must not have touched
+///   the probes (`touched` = number of calls the mocks saw).
+/// * `v` accepted and the case is `fit_safe`: `on_p(hb)` and `on_c(fresh().check())` (the checked
+///   form of a *fresh* builder with the same values) must behave identically (`same` on two `Ok`
+///   values, equal text on two `Err`, both panic).
 #[allow(clippy::too_many_arguments)]
-pub fn fit_core<T, E: Display>(
+pub fn fit_core<P, T, E>(
     obs: &mut Obs,
-    cx: &Ctx,
+    g: &Glue<P>,
     v: &Verdict,
+    hb: &P,
     entry: &'static str,
-    unchecked: impl FnOnce() -> Result<T, E>,
-    checked: impl FnOnce() -> Result<T, E>,
-    converted: impl FnOnce() -> Option<String>,
+    on_p: &dyn Fn(&P) -> Result<T, E>,
+    on_c: &dyn Fn(&P::Checked) -> Result<T, E>,
     touched: &dyn Fn() -> usize,
-    same: impl Fn(&T, &T) -> bool,
-) {
+    same: &dyn Fn(&T, &T) -> bool,
+) where
+    P: ParamGuard,
+    E: Display + From<P::Error>,
+{
+    let cx = g.cx;
     if !v.ok {
         let before = touched();
-        match run(unchecked) {
+        match run(|| on_p(hb)) {
             Outcome::Panic(m) => obs.fail(
                 cx.sig(&format!("{entry}:panics-on-invalid")),
                 format!("{entry} on the unchecked builder panicked: {m} ({})", cx.describe()),
@@ -226,7 +371,7 @@ pub fn fit_core<T, E: Display>(
                 ),
             ),
             Outcome::Err(e) => {
-                if let Some(want) = converted() {
+                if let Some(want) = hb.check_ref().err().map(|e| E::from(e).to_string()) {
                     obs.ensure(e == want, &cx.sig(&format!("{entry}:error-differs-from-check_ref")), || {
                         format!("{entry} returned Err(\"{e}\"), the converted check_ref error is \"{want}\" ({})", cx.describe())
                     });
@@ -249,15 +394,34 @@ pub fn fit_core<T, E: Display>(
         obs.class("entry_not_run_unsafe_value");
         return;
     }
-    let a = run(unchecked);
-    let b = run(checked);
+    let a = run(|| on_p(hb));
+    let b = run(|| {
+        let checked = g.fresh().check().map_err(E::from)?;
+        on_c(&checked)
+    });
     let sig = cx.sig(&format!("{entry}:valid-differs-from-checked"));
+    // history cases: does the earlier configuration train to something else? (non-trivial rule)
+    if let (Some(h), Outcome::Ok(x)) = (&cx.hist, &a) {
+        if h.trainable && h.expect == Expect::In {
+            if let Some(f1) = g.fresh_first() {
+                if let Outcome::Ok(y) = run(|| on_p(&f1)) {
+                    if !same(x, &y) {
+                        obs.nontrivial();
+                        obs.class("history_both_valid_fit_results_differ");
+                    }
+                }
+            }
+        }
+    }
     match (a, b) {
         (Outcome::Ok(x), Outcome::Ok(y)) => {
             obs.class("entry_trained");
             obs.class(cx.cls(&format!("{entry}_trained")));
             obs.ensure(same(&x, &y), &sig, || {
-                format!("{entry}: unchecked builder and checked form produced different results ({})", cx.describe())
+                format!(
+                    "{entry}: the unchecked builder and the checked form of a fresh builder with the same values produced different results ({})",
+                    cx.describe()
+                )
             });
         }
         (Outcome::Err(x), Outcome::Err(y)) => {
@@ -286,6 +450,13 @@ pub fn fit_core<T, E: Display>(
             );
         }
     }
+}
+
+/// `touch` helper: run an entry point, ignore result and panic
+pub fn ignore<T>(f: impl FnOnce() -> T) {
+    let _ = guard(|| {
+        let _ = f();
+    });
 }
 
 // ------------------------------------------------------------------------------------------------
